@@ -65,7 +65,7 @@ def task(t):
                 if truth is not None and a == truth: continue
                 if truth is None and reported: break
                 other = good if good else next(((k, v) for k, v in ans.items() if v[0] != a))
-                if not (S.confirm(script, (), lambda x, a=a: S.blocks(x.out)[:1] == [a]) and S.confirm(other[1][1], (), lambda x, o=other: S.blocks(x.out)[:1] == [o[1][0]])):
+                if not (S.confirm(script, (), lambda x, a=a: S.blocks(x.out)[:1] == [a], cls=('c05', famname, lg, tuple(opts), a)) and S.confirm(other[1][1], (), lambda x, o=other: S.blocks(x.out)[:1] == [o[1][0]])):
                     cov['unconfirmed_in_fresh_process'] += 1; continue
                 rec = dict(S.features(fam, opts, assertions), logic=lg or fam.logic,
                            symptom=('wrong_' + a) if truth else 'sat_vs_unsat_unadjudicated',
